@@ -120,7 +120,7 @@ def mk_regexmatch(it, world, pid, tag):
 def _ev(model, t):
     if not is_z3(t):
         return t
-    r = model.eval(t, model_completion=True)
+    r = model.eval(t, model_completion=True) if model is not None else z3.simplify(t)
     if z3.is_int_value(r):
         return r.as_long()
     if z3.is_true(r):
